@@ -48,7 +48,10 @@ AXES = {
     # kick amplitudes up to beyond the grid: wake kicks (strong currents on a resistive impedance), RF kicks and drifts of many cells per step
     "kick": ["BunchCurrent=1", "BunchCurrent=1000", "BunchCurrent=1e6|CollimatorRadius=0.0005", "StepsPerTs=1|alpha0=0.5", "alpha0=10", "alpha1=50", "alpha2=-1000",
              "SynchrotronFrequency=4e6", "LinearRF=false|AcceleratingVoltage=1e9", "RFPhaseModAmplitude=30|RFPhaseModFrequency=1e5", "RFAmplitudeSpread=10",
-             "BunchCurrent=1|tracking=@track_edges|FPTrack=1", "alpha0=10|tracking=@track_edges|FPTrack=3"],
+             "BunchCurrent=1|tracking=@track_edges|FPTrack=1", "alpha0=10|tracking=@track_edges|FPTrack=3",
+             # four steps per synchrotron period: the linear RF kick is tan(pi/2) (-2.3e7 in single precision) times the distance from the centre - 1.5e9 cells on a
+             # 128 grid, 2.9e9 (beyond the range of a 32-bit integer) on the program's default 256 grid
+             "GridSize=128|StepsPerTs=4|rotations=0.5", "GridSize=256|StepsPerTs=4|rotations=0.5", "GridSize=256|StepsPerTs=4|rotations=0.5|tracking=@track_inside|FPTrack=1"],
 }
 
 
@@ -217,7 +220,8 @@ def run(res, tier):
     # (thorough: two lines) over these templates - the selection is made per kind, not from the head of the list
     vcases = [c for c in vcases if c[0].count(",") <= (1 if tier == "thorough" else 0)]
     # ... and in every single deviation of the configuration domain (uninitialised values are invisible to the sanitizer build)
-    vcases = [c for c in cases if c[0] == "base" or c[0].startswith("dev1 ")] + vcases
+    # (the two large-grid cases of the kick axis are left to the sanitizer build: under valgrind they alone take a minute)
+    vcases = [c for c in cases if c[0] == "base" or (c[0].startswith("dev1 ") and "GridSize=128" not in c[0] and "GridSize=256" not in c[0])] + vcases
 
     def dov(ic):
         i, (label, a) = ic
